@@ -1,6 +1,7 @@
 /-
 C04 — Serialiser enforces the size limit exactly and stays inside its buffers.
 -/
+import CoapLite.Lemmas.Shape.Api
 import CoapLite.Lemmas.CodecFwd
 import CoapLite.Lemmas.CopyTrace
 import CoapLite.Lemmas.CodecEncLow
@@ -113,5 +114,13 @@ theorem state_shape_matches_source :
     Shapes.header = [("code", "MessageClass"), ("message_id", "u16"), ("ver_type_tkl", "u8")] ∧
     Shapes.headerRaw = [("code", "u8"), ("message_id", "u16"), ("ver_type_tkl", "u8")] :=
   ⟨ShapeTie.no_global_state, ShapeTie.packet, ShapeTie.header, ShapeTie.headerRaw⟩
+
+/-- the public entry points of the modelled source files – re-read from /repo/src on every run – are
+exactly the ones the model was written against (`Lemmas/Shape/Api.lean`): a new public way to change the
+state this property is about, or a receiver that became `&mut self`, breaks this theorem -/
+theorem api_surface_matches_source :
+    Shapes.apiPacket = ShapeTie.expectedApiPacket ∧
+    Shapes.apiHeader = ShapeTie.expectedApiHeader :=
+  ⟨ShapeTie.apiPacket, ShapeTie.apiHeader⟩
 
 end CoapLite.C04
